@@ -48,6 +48,9 @@ func runC14(rc *RunCtx, i int) {
 	if i%2 == 1 {
 		kind = world.StoreFS
 	}
+	if i%8 == 2 {
+		kind = world.StoreMix // files really vanish from disk, metadata commits stay atomic
+	}
 	caseID := fmt.Sprintf("%s%d_%d", strings.ToLower(rc.ID), rc.Seed, i)
 	v := gen.NewVocab(r.Split("vocab"))
 	tok := gen.Tokenizers[0]
